@@ -1,4 +1,4 @@
-(* C10 half (b), round trip — the AST [ast_of fa l ag] that a printed grammar denotes
+(* C10 half (b), round trip — the AST [ast_of fa fp l ag] that a printed grammar denotes
    CONTAINS EXACTLY the abstract grammar [ag] ([ast_of_faithful]): productions in
    source order, one rule per distinct name in order of first block owning exactly
    the productions of its blocks, the start rule, precedence levels, %epp pairs,
@@ -150,24 +150,24 @@ Proof.
   apply IH. destruct (sym_q pl k s); [exact H | apply P_tok; exact H ..].
 Qed.
 
-Lemma prod_eff_pres : forall fa pl rn off p a, P a -> P (prod_eff fa pl rn off p a).
+Lemma prod_eff_pres : forall fa fp pl rn off p a, P a -> P (prod_eff fa fp pl rn off p a).
 Proof.
-  intros fa pl rn off p a H. unfold prod_eff. apply P_prod.
+  intros fa fp pl rn off p a H. unfold prod_eff. apply P_prod.
   destruct (ap_prec p); [apply P_tok|]; apply syms_ins_pres; exact H.
 Qed.
 
-Lemma prods_eff_pres : forall fa rl rn ps pi off a, P a -> P (prods_eff fa rl rn pi off ps a).
+Lemma prods_eff_pres : forall fa fp rl rn ps pi off a, P a -> P (prods_eff fa fp rl rn pi off ps a).
 Proof.
-  intros fa rl rn ps. induction ps as [|p ps IH]; intros pi off a H; cbn [prods_eff]; [exact H|].
+  intros fa fp rl rn ps. induction ps as [|p ps IH]; intros pi off a H; cbn [prods_eff]; [exact H|].
   apply IH. apply prod_eff_pres. exact H.
 Qed.
 
-Lemma rule_eff_pres : forall fa rl off at_ r a, P a -> P (rule_eff fa rl off at_ r a).
+Lemma rule_eff_pres : forall fa fp rl off at_ r a, P a -> P (rule_eff fa fp rl off at_ r a).
 Proof. intros. unfold rule_eff. apply prods_eff_pres. apply P_head. assumption. Qed.
 
-Lemma rules_eff_pres : forall fa l at_ rs r off a, P a -> P (rules_eff fa l r off at_ rs a).
+Lemma rules_eff_pres : forall fa fp l at_ rs r off a, P a -> P (rules_eff fa fp l r off at_ rs a).
 Proof.
-  intros fa l at_ rs. induction rs as [|x rs IH]; intros r off a H; cbn [rules_eff]; [exact H|].
+  intros fa fp l at_ rs. induction rs as [|x rs IH]; intros r off a H; cbn [rules_eff]; [exact H|].
   apply IH. apply rule_eff_pres. exact H.
 Qed.
 End RulesPres.
@@ -262,9 +262,9 @@ Proof.
   intros off at_ n a. unfold rule_head_eff. destruct (a_start a); cbn; destruct (get_rule _ n); reflexivity.
 Qed.
 
-Lemma rules_eff_dpart : forall fa l at_ rs r off a, dpart (rules_eff fa l r off at_ rs a) = dpart a.
+Lemma rules_eff_dpart : forall fa fp l at_ rs r off a, dpart (rules_eff fa fp l r off at_ rs a) = dpart a.
 Proof.
-  intros fa l at_ rs r off a. apply (rules_eff_pres (fun a' => dpart a' = dpart a)); [| | |reflexivity].
+  intros fa fp l at_ rs r off a. apply (rules_eff_pres (fun a' => dpart a' = dpart a)); [| | |reflexivity].
   - intros a' n sp H. rewrite tokens_insert_dpart. exact H.
   - intros a' rn syms prec act sp H. rewrite add_prod_t_dpart. exact H.
   - intros off' at' n a' H. rewrite rule_head_dpart. exact H.
@@ -295,9 +295,9 @@ Proof.
   - intros a' o H. unfold ins_implicit. apply (span_len_tokens_insert a' (fst o) (snd o)) in H. exact H.
 Qed.
 
-Lemma span_len_rules : forall fa l at_ rs r off a, span_len a -> span_len (rules_eff fa l r off at_ rs a).
+Lemma span_len_rules : forall fa fp l at_ rs r off a, span_len a -> span_len (rules_eff fa fp l r off at_ rs a).
 Proof.
-  intros fa l at_ rs r off a. apply (rules_eff_pres span_len).
+  intros fa fp l at_ rs r off a. apply (rules_eff_pres span_len).
   - exact span_len_tokens_insert.
   - intros a' rn syms prec act sp H. unfold add_prod_t, add_prod.
     destruct (rules_push_pidx (a_rules a') rn (List.length (a_prods a'))); exact H.
@@ -306,9 +306,9 @@ Proof.
 Qed.
 
 (* ---- %token-declared names --------------------------------------------------------- *)
-Lemma rules_eff_inv : forall fa D l at_ rs r off a, tok_inv D a -> tok_inv D (rules_eff fa l r off at_ rs a).
+Lemma rules_eff_inv : forall fa fp D l at_ rs r off a, tok_inv D a -> tok_inv D (rules_eff fa fp l r off at_ rs a).
 Proof.
-  intros fa D l at_ rs r off a. apply (rules_eff_pres (tok_inv D)).
+  intros fa fp D l at_ rs r off a. apply (rules_eff_pres (tok_inv D)).
   - intros. apply tok_inv_tokens_insert. assumption.
   - intros. apply tok_inv_add_prod_t. assumption.
   - intros. apply tok_inv_rule_head. assumption.
@@ -568,9 +568,9 @@ Qed.
 (* ======================================================================== *)
 (*  the rules section: start rule and rule names                              *)
 (* ======================================================================== *)
-Lemma prods_eff_start : forall fa rl rn ps pi off a, a_start (prods_eff fa rl rn pi off ps a) = a_start a.
+Lemma prods_eff_start : forall fa fp rl rn ps pi off a, a_start (prods_eff fa fp rl rn pi off ps a) = a_start a.
 Proof.
-  intros fa rl rn ps pi off a. apply (prods_eff_pres (fun a' => a_start a' = a_start a)); [| |reflexivity].
+  intros fa fp rl rn ps pi off a. apply (prods_eff_pres (fun a' => a_start a' = a_start a)); [| |reflexivity].
   - intros a' n sp H. rewrite tokens_insert_start. exact H.
   - intros a' rn' syms prec act sp H.
     destruct (add_prod_t_frame a' rn' syms prec act sp) as [_ [_ [E _]]]. rewrite E. exact H.
@@ -584,14 +584,14 @@ Proof.
     cbn; try rewrite E; reflexivity.
 Qed.
 
-Lemma rules_eff_start : forall fa l at_ rs r off a,
-  option_map fst (a_start (rules_eff fa l r off at_ rs a))
+Lemma rules_eff_start : forall fa fp l at_ rs r off a,
+  option_map fst (a_start (rules_eff fa fp l r off at_ rs a))
   = match option_map fst (a_start a) with
     | Some n => Some n
     | None => option_map ar_name (hd_error rs)
     end.
 Proof.
-  intros fa l at_ rs. induction rs as [|x rs IH]; intros r off a; cbn [rules_eff hd_error option_map].
+  intros fa fp l at_ rs. induction rs as [|x rs IH]; intros r off a; cbn [rules_eff hd_error option_map].
   - destruct (option_map fst (a_start a)); reflexivity.
   - rewrite IH. unfold rule_eff. rewrite prods_eff_start, rule_head_start.
     destruct (a_start a) as [[s sp]|]; reflexivity.
@@ -605,10 +605,10 @@ Proof.
   cbn [a_rules upd_prods upd_rules]. exact (push_names _ _ _ _ E).
 Qed.
 
-Lemma prods_eff_names : forall fa rl rn ps pi off a,
-  map r_name (a_rules (prods_eff fa rl rn pi off ps a)) = map r_name (a_rules a).
+Lemma prods_eff_names : forall fa fp rl rn ps pi off a,
+  map r_name (a_rules (prods_eff fa fp rl rn pi off ps a)) = map r_name (a_rules a).
 Proof.
-  intros fa rl rn ps pi off a.
+  intros fa fp rl rn ps pi off a.
   apply (prods_eff_pres (fun a' => map r_name (a_rules a') = map r_name (a_rules a))); [| |reflexivity].
   - intros a' n sp H. rewrite tokens_insert_rules. exact H.
   - intros a' rn' syms prec act sp H. rewrite add_prod_t_names. exact H.
@@ -642,11 +642,11 @@ Proof.
   rewrite map_app. reflexivity.
 Qed.
 
-Lemma rules_eff_names : forall fa l at_ rs r off a,
-  map r_name (a_rules (rules_eff fa l r off at_ rs a))
+Lemma rules_eff_names : forall fa fp l at_ rs r off a,
+  map r_name (a_rules (rules_eff fa fp l r off at_ rs a))
   = fold_left addn (map ar_name rs) (map r_name (a_rules a)).
 Proof.
-  intros fa l at_ rs. induction rs as [|x rs IH]; intros r off a; cbn [rules_eff map fold_left]; [reflexivity|].
+  intros fa fp l at_ rs. induction rs as [|x rs IH]; intros r off a; cbn [rules_eff map fold_left]; [reflexivity|].
   rewrite IH. unfold rule_eff. rewrite prods_eff_names, rule_head_names. reflexivity.
 Qed.
 
@@ -781,11 +781,11 @@ Proof.
     unfold has_rule in Hr. destruct (get_rule (a_rules a) rn); [discriminate | discriminate Hr].
 Qed.
 
-Lemma RI_prod : forall ty fa pl' rn off p a owners pl,
+Lemma RI_prod : forall ty fa fp pl' rn off p a owners pl,
   RI ty a owners pl -> has_rule a rn = true ->
-  RI ty (prod_eff fa pl' rn off p a) (owners ++ [rn]) (pl ++ [apview p]).
+  RI ty (prod_eff fa fp pl' rn off p a) (owners ++ [rn]) (pl ++ [apview p]).
 Proof.
-  intros ty fa pl' rn off p a owners pl H Hr. unfold prod_eff.
+  intros ty fa fp pl' rn off p a owners pl H Hr. unfold prod_eff.
   set (a1 := syms_ins pl' 0 (prod_o0 pl' off p) (ap_syms p) a).
   set (a2 := match ap_prec p with Some t => tokens_insert a1 t _ | None => a1 end).
   destruct (syms_ins_frame pl' (ap_syms p) 0 (prod_o0 pl' off p) a) as [F1 [F2 _]]. fold a1 in F1, F2.
@@ -796,22 +796,22 @@ Proof.
   assert (Hr2 : has_rule a2 rn = true) by (unfold has_rule in *; rewrite G1; exact Hr).
   pose proof (RI_add_prod ty a2 owners pl rn (syms_out pl' 0 (prod_o0 pl' off p) (ap_syms p)) (ap_prec p)
                 (match ap_action p with Some t => Some (t, act_span fa pl' (prod_o2 pl' off p) t) | None => None end)
-                (off, match prod_pend pl' off p with Some e => e | None => prod_o3 pl' off p end)
+                (off, match prod_pend fp pl' off p with Some e => e | None => prod_o3 pl' off p end)
                 (RI_same ty a a2 owners pl G1 G2 H) Hr2) as R.
   replace (apview p) with
     (pview (mkProd (syms_out pl' 0 (prod_o0 pl' off p) (ap_syms p)) (ap_prec p)
                    (match ap_action p with Some t => Some (t, act_span fa pl' (prod_o2 pl' off p) t) | None => None end)
-                   (off, match prod_pend pl' off p with Some e => e | None => prod_o3 pl' off p end))).
+                   (off, match prod_pend fp pl' off p with Some e => e | None => prod_o3 pl' off p end))).
   - exact R.
   - unfold pview, apview. cbn [p_syms p_prec p_action]. rewrite erase_syms_out.
     destruct (ap_action p); reflexivity.
 Qed.
 
-Lemma RI_prods : forall ty fa rl rn ps pi off a owners pl,
+Lemma RI_prods : forall ty fa fp rl rn ps pi off a owners pl,
   RI ty a owners pl -> has_rule a rn = true ->
-  RI ty (prods_eff fa rl rn pi off ps a) (owners ++ map (fun _ => rn) ps) (pl ++ map apview ps).
+  RI ty (prods_eff fa fp rl rn pi off ps a) (owners ++ map (fun _ => rn) ps) (pl ++ map apview ps).
 Proof.
-  intros ty fa rl rn ps. induction ps as [|p ps IH]; intros pi off a owners pl H Hr; cbn [prods_eff map].
+  intros ty fa fp rl rn ps. induction ps as [|p ps IH]; intros pi off a owners pl H Hr; cbn [prods_eff map].
   - rewrite !app_nil_r. exact H.
   - replace (owners ++ rn :: map (fun _ => rn) ps) with ((owners ++ [rn]) ++ map (fun _ : aprod => rn) ps)
       by (rewrite <- app_assoc; reflexivity).
@@ -822,31 +822,31 @@ Proof.
     + rewrite prod_eff_has_rule. exact Hr.
 Qed.
 
-Lemma RI_rule : forall ty at_ fa rl off r a owners pl,
+Lemma RI_rule : forall ty at_ fa fp rl off r a owners pl,
   RI ty a owners pl ->
   (get_rule (a_rules a) (ar_name r) = None -> ty (ar_name r) = rule_at_ at_ r) ->
-  RI ty (rule_eff fa rl off at_ r a) (owners ++ map (fun _ => ar_name r) (ar_prods r))
+  RI ty (rule_eff fa fp rl off at_ r a) (owners ++ map (fun _ => ar_name r) (ar_prods r))
      (pl ++ map apview (ar_prods r)).
 Proof.
-  intros ty at_ fa rl off r a owners pl H Hty. unfold rule_eff. apply RI_prods.
+  intros ty at_ fa fp rl off r a owners pl H Hty. unfold rule_eff. apply RI_prods.
   - apply RI_head; assumption.
   - apply rule_head_has_rule.
 Qed.
 
-Lemma rule_eff_names : forall fa rl off at_ r a,
-  map r_name (a_rules (rule_eff fa rl off at_ r a)) = addn (map r_name (a_rules a)) (ar_name r).
-Proof. intros fa rl off at_ r a. unfold rule_eff. rewrite prods_eff_names, rule_head_names. reflexivity. Qed.
+Lemma rule_eff_names : forall fa fp rl off at_ r a,
+  map r_name (a_rules (rule_eff fa fp rl off at_ r a)) = addn (map r_name (a_rules a)) (ar_name r).
+Proof. intros fa fp rl off at_ r a. unfold rule_eff. rewrite prods_eff_names, rule_head_names. reflexivity. Qed.
 
 (* [done] = the blocks before: the rule table has exactly their names, each rule with the type
    of its first block *)
-Lemma RI_rules : forall at_ fa l rs r off a owners pl done,
+Lemma RI_rules : forall at_ fa fp l rs r off a owners pl done,
   RI (tyf at_ done) a owners pl ->
   (forall n, In n (map r_name (a_rules a)) <-> In n (map ar_name done)) ->
-  RI (tyf at_ (done ++ rs)) (rules_eff fa l r off at_ rs a)
+  RI (tyf at_ (done ++ rs)) (rules_eff fa fp l r off at_ rs a)
      (owners ++ flat_map (fun x => map (fun _ => ar_name x) (ar_prods x)) rs)
      (pl ++ map apview (flat_map ar_prods rs)).
 Proof.
-  intros at_ fa l rs. induction rs as [|x rs IH]; intros r off a owners pl done H Hn; cbn [rules_eff flat_map map].
+  intros at_ fa fp l rs. induction rs as [|x rs IH]; intros r off a owners pl done H Hn; cbn [rules_eff flat_map map].
   - rewrite !app_nil_r. exact H.
   - replace (done ++ x :: rs) with ((done ++ [x]) ++ rs) by (rewrite <- app_assoc; reflexivity).
     rewrite map_app, !app_assoc. apply IH.
@@ -865,7 +865,7 @@ Qed.
 (* ======================================================================== *)
 Lemma ast_of_faithful : ast_of_faithful_stmt.
 Proof.
-  intros k fa l ag Hwf A.
+  intros k fa fp l ag Hwf A.
   destruct Hwf as [Hs [He [Hr [_ [_ [_ [_ [_ [_ [_ [_ [_ [_ [_ [Hat [Hpp [Hpg _]]]]]]]]]]]]]]]]].
   unfold count_decl in Hs, He, Hr, Hat, Hpp, Hpg.
   set (D := decls_eff l 0 (decls_off l) 0 (ag_decls ag) ast_new).
@@ -878,8 +878,8 @@ Proof.
                  (fun d => match d with DActiontype _ => true | _ => false end)); [exact Hat|].
       intros x. destruct x; reflexivity. }
   set (at_ := ag_actiontype ag) in *.
-  set (A0 := rules_eff fa l 0 (rules_off l ag) at_ (ag_rules ag) D).
-  assert (EA0 : A0 = rules_eff fa l 0 (rules_off l ag) at_ (ag_rules ag) D) by reflexivity.
+  set (A0 := rules_eff fa fp l 0 (rules_off l ag) at_ (ag_rules ag) D).
+  assert (EA0 : A0 = rules_eff fa fp l 0 (rules_off l ag) at_ (ag_rules ag) D) by reflexivity.
   (* the programs section *)
   assert (EA : A = programs_eff ag A0) by (unfold A, ast_of; rewrite Eat; reflexivity).
   assert (PJ : (a_prods A = a_prods A0 /\ a_rules A = a_rules A0 /\ a_start A = a_start A0 /\
@@ -899,7 +899,7 @@ Proof.
   unfold rpart in HD. cbn [ast_new a_rules a_prods a_programs] in HD.
   injection HD as HD1 HD2 HD3.
   (* what the rules leave alone *)
-  pose proof (rules_eff_dpart fa l at_ (ag_rules ag) 0 (rules_off l ag) D) as HR. rewrite <- EA0 in HR.
+  pose proof (rules_eff_dpart fa fp l at_ (ag_rules ag) 0 (rules_off l ag) D) as HR. rewrite <- EA0 in HR.
   unfold dpart in HR. injection HR as HR1 HR2 HR3 HR4 HR5 HR6 HR7 HR8 HR9 HR10.
   (* the rules section *)
   assert (RI0 : RI (tyf at_ []) D [] []).
@@ -910,7 +910,7 @@ Proof.
     - destruct H. }
   assert (Hn0 : forall n, In n (map r_name (a_rules D)) <-> In n (map ar_name (@nil arule))).
   { intros n. rewrite HD1. cbn [map]. split; intros H; exact H. }
-  pose proof (RI_rules at_ fa l (ag_rules ag) 0 (rules_off l ag) D [] [] [] RI0 Hn0) as R.
+  pose proof (RI_rules at_ fa fp l (ag_rules ag) 0 (rules_off l ag) D [] [] [] RI0 Hn0) as R.
   rewrite <- EA0 in R. cbn [app] in R. destruct R as [R1 [R2 [R3 [R4 R5]]]].
   split; [exact R1|].
   split.
@@ -954,7 +954,7 @@ Proof.
                  (fun d => match d with DExpectRR _ => true | _ => false end)); [exact Hr|].
       intros x. destruct x; reflexivity. }
   split.
-  { pose proof (rules_eff_inv fa (declared_b ag) l at_ (ag_rules ag) 0 (rules_off l ag) D
+  { pose proof (rules_eff_inv fa fp (declared_b ag) l at_ (ag_rules ag) 0 (rules_off l ag) D
                   (decls_tok_inv l ag)) as [_ Hd].
     rewrite <- EA0 in Hd. exact Hd. }
   split.
@@ -1011,12 +1011,12 @@ Qed.
 
 Lemma ast_of_block_types : ast_of_block_types_stmt.
 Proof.
-  intros k fa l ag Hag x Hx.
-  pose proof (ast_of_faithful k fa l ag Hag) as HF. cbv zeta in HF.
+  intros k fa fp l ag Hag x Hx.
+  pose proof (ast_of_faithful k fa fp l ag Hag) as HF. cbv zeta in HF.
   destruct HF as [_ [Hnames [Hrules _]]].
   assert (Hagree : forall r1 r2, In r1 (ag_rules ag) -> In r2 (ag_rules ag) -> ar_name r1 = ar_name r2 -> ar_type r1 = ar_type r2).
   { unfold wf_agram in Hag. decompose [and] Hag. assumption. }
-  assert (Hin : In (ar_name x) (map r_name (a_rules (ast_of fa l ag)))).
+  assert (Hin : In (ar_name x) (map r_name (a_rules (ast_of fa fp l ag)))).
   { rewrite Hnames. apply in_dedup. apply in_map. exact Hx. }
   apply in_map_iff in Hin. destruct Hin as [r [Hn Hr]].
   exists r. split; [exact Hr|]. split; [exact Hn|].
